@@ -39,7 +39,8 @@ func (w *fileWriter) file(file *model.File) error {
 
 	for _, imp := range file.Imports {
 		pkg := importPackage(imp)
-		w.linef(`"%v"`, pkg)
+		// Imported types are referred to by the import name (the alias when given).
+		w.linef(`%v "%v"`, imp.Name, pkg)
 	}
 	w.line(")")
 	w.line()
